@@ -76,6 +76,15 @@ fcppt::optional::object<std::basic_string<Out>> codecvt(
       return optional_return_type{return_type(_string.begin(), _string.end())};
     case std::codecvt_base::error:
       return optional_return_type{};
+    case std::codecvt_base::ok:
+      if (from_next == fcppt::container::data_end(_string))
+      {
+        return optional_return_type{return_type(buf.begin(), buf.end())};
+      }
+      // Some implementations report ok although not all of the input has been
+      // consumed (an incomplete character at the end, an output window that was
+      // exactly full). Treat that like partial instead of dropping the rest.
+      [[fallthrough]];
     case std::codecvt_base::partial:
     {
       // partial either means that the output does not fit or that the input
@@ -92,8 +101,6 @@ fcppt::optional::object<std::basic_string<Out>> codecvt(
       buf.resize_write_area(std::max(buf.read_size() * 2U, max_length));
       continue;
     }
-    case std::codecvt_base::ok:
-      return optional_return_type{return_type(buf.begin(), buf.end())};
     }
 
     return optional_return_type{};
